@@ -1,8 +1,10 @@
-(** Property C04: grammar conformance.  Only statements here; proofs in TG.Proofs.C04Proofs. *)
+(** Property C04: grammar conformance.  Only statements here; proofs in TG.Proofs.C04Proofs / GramSound.
+    [grammar_prog] (the whole recursive-descent grammar), [doc_rules_*] (syntax.md + rule comments) and
+    [ast_nodes] are regenerated from the current source on every run. *)
 From Coq Require Import List NArith Bool String.
 From TG.Gen Require Import GenTokens GenLexTables GenGrammar GenAst GenDocGrammar.
-From TG.Model Require Import Chars Lexer Tree GInterp DocGrammar Completion.
-From TG.Proofs Require Import C04Proofs.
+From TG.Model Require Import Chars Lexer Tree GInterp DocGrammar Completion GramAbs GramCert.
+From TG.Proofs Require Import GramSound C04Proofs.
 Import ListNotations.
 Close Scope string_scope.
 Open Scope list_scope.
@@ -12,3 +14,32 @@ Theorem C04_doc_literals_lex :
   forall l k, In (l, k) doc_literals -> lex_text l = [(k, None, l); (T_Eof, None, [])].
 Proof. exact C04_doc_literals_lex_proof. Qed.
 Print Assumptions C04_doc_literals_lex.
+
+(** Soundness direction, for ALL texts and ALL fuels: if the parser model returns a tree with ZERO syntax errors, the
+    sequence of non-trivia token kinds of that tree (= of the input, by C01) is derivable from SourceFile in the documented
+    grammar with the trailing-separator allowance and the listed known accept-deltas ([doc_rules_sound]).
+    Contrapositive: a token sequence that is not derivable yields at least one syntax error.
+    Full statement (refuted by the known findings accepts:*, see known_findings.txt): the same against [doc_rules_trail]. *)
+Theorem C04_errors_or_sentence :
+  forall fuel txt t st, parse_with fuel grammar_prog grammar_entry txt = ParseOk t [] st ->
+  exists u : list TokenKind,
+    derives doc_rules_sound doc_start u /\ map sk_of_tk u = filter (fun k => negb (sk_is_trivia k)) (tkinds t).
+Proof. exact C04_errors_or_sentence_proof. Qed.
+Print Assumptions C04_errors_or_sentence.
+
+(** the generic theorem behind it: for every grammar program, documented grammar and certificate accepted by the checker *)
+Theorem C04_check_all_sound :
+  forall G p C cfuel entry start, check_all G p C cfuel entry start = true ->
+  forall fuel txt t st, parse_with fuel p entry txt = ParseOk t [] st ->
+  exists u : list TokenKind, derives G start u /\ map sk_of_tk u = filter (fun k => negb (sk_is_trivia k)) (tkinds t).
+Proof. exact check_all_sound. Qed.
+Print Assumptions C04_check_all_sound.
+
+(** the obligation is not vacuous: without the known accept-deltas the same check FAILS on the current grammar ... *)
+Theorem C04_check_discriminates :
+  check_all doc_rules_trail grammar_prog grammar_cert check_fuel grammar_entry doc_start = false.
+Proof. exact check_doc_trail_fails. Qed.
+(** ... and the hypothesis of C04_errors_or_sentence is satisfiable *)
+Example C04_zero_error_parse_exists :
+  exists t st, parse_with 4000 grammar_prog grammar_entry (t_text "class A<int x> : B<1> { let y = [1, 2]; }"%string) = ParseOk t [] st.
+Proof. exact zero_error_parse_exists. Qed.
